@@ -51,7 +51,7 @@ func init() {
 			}
 			return len(c.Lines) > 6 && ((grow && rm) || !hooks)
 		},
-		Rule:     "op sequences (set/setnx/setx/get/getnode/setnode/rm/clear/init/len/head/keys/values/range/all/rfrom/rrange with early stop, walk/walkfrom through Head()/GetNode()+Next(), a node handle kept across operations: hold/held/heldset/heldwalk) on SkipList[int|string,int] (zero value and New) and SkipListWithCmp (natural, reverse, modular-then-value / length-then-bytes total orders, and the weak orders k>>1 / length-only that identify distinct keys) with forced tower heights; non-trivial = ≥ 6 ops with at least one top-level growth and one successful removal; distinct by hash of the op list",
+		Rule:     "op sequences (set/setnx/setx/get/getnode/setnode/rm/clear/init/len/head/keys/values/range/all/rfrom/rrange with early stop, walk/walkfrom through Head()/GetNode()+Next(), a node handle kept across operations: hold/held/heldset/heldwalk) on SkipList[int|string,int] (zero value and New) and SkipListWithCmp (natural, reverse, modular-then-value / length-then-bytes total orders, comparators answering with arbitrary magnitudes: a-b, 7(a-b), sign·(1+hash), byte difference; and the weak orders k>>1 / length-only that identify distinct keys) with forced tower heights; non-trivial = ≥ 6 ops with at least one top-level growth and one successful removal; distinct by hash of the op list",
 		Classify: classify,
 		Facts:    facts,
 		Parallel: true,
@@ -99,6 +99,24 @@ func intCmp(name string) func(a, b int) int {
 		}
 	case "half": // weak order: 2m and 2m+1 compare equal
 		return func(a, b int) int { return cmpInt(a>>1, b>>1) }
+	// comparators that answer with arbitrary magnitudes (only the sign is promised)
+	case "diff":
+		return func(a, b int) int { return a - b }
+	case "scaled":
+		return func(a, b int) int { return 7 * (a - b) }
+	case "sgnhash":
+		return func(a, b int) int {
+			h := 1 + ((31*a+17*b)%5+5)%5
+			switch {
+			case a < b:
+				return -h
+			case a == b:
+				return 0
+			}
+			return h
+		}
+	case "halfdiff":
+		return func(a, b int) int { return 3 * (a>>1 - b>>1) }
 	}
 	return nil
 }
@@ -118,6 +136,15 @@ func strCmp(name string) func(a, b string) int {
 		}
 	case "lenonly": // weak order: strings of the same length compare equal
 		return func(a, b string) int { return cmpInt(len(a), len(b)) }
+	case "bytesdiff": // the natural order; answers the difference of the first differing bytes / of the lengths
+		return func(a, b string) int {
+			for i := 0; i < len(a) && i < len(b); i++ {
+				if a[i] != b[i] {
+					return int(a[i]) - int(b[i])
+				}
+			}
+			return len(a) - len(b)
+		}
 	}
 	return nil
 }
@@ -171,9 +198,9 @@ func gen(r *core.Rand, tier string) core.Case {
 	cmp := "nat"
 	if kind == "cmp" {
 		if kt == "int" {
-			cmp = []string{"nat", "rev", "mod3", "mod3", "half", "half"}[r.Intn(6)]
+			cmp = []string{"nat", "rev", "mod3", "mod3", "half", "half", "diff", "scaled", "sgnhash", "halfdiff"}[r.Intn(10)]
 		} else {
-			cmp = []string{"nat", "rev", "len", "lenonly"}[r.Intn(4)]
+			cmp = []string{"nat", "rev", "len", "lenonly", "bytesdiff", "bytesdiff"}[r.Intn(6)]
 		}
 	}
 	lines := []string{fmt.Sprintf("@ C02 %s %s %s %s", kind, kt, cmp, dumpFlag())}
@@ -312,6 +339,10 @@ func corpus() []core.Case {
 		// weak orders: 6 and 7 (k>>1 = 3) are one binding, the stored key 7 survives the replacing Set/SetX
 		core.Case{Lines: []string{"@ C02 cmp int half " + dumpFlag(), "set 7 101 536870912", "setx 6 115 0", "get 6", "get 7", "getnode 6", "setnx 6 1 0", "set 2 5 1", "set 9 6 0", "keys", "rfrom 3 0", "rrange 3 8 0", "rrange 2 6 0", "hold 3", "set 3 77 0", "held", "heldwalk", "rm 2", "held", "walk", "rm 6", "len", "keys"}, Tag: "corpus-weak"},
 		core.Case{Lines: []string{"@ C02 cmp str lenonly " + dumpFlag(), "set 6162 1 1", "set 7a 2 1", "set 6263 3 0", "set - 4 1073741824", "keys", "values", "getnode 7979", "setnode 62 9", "rfrom 61 0", "rrange - 6161 0", "walkfrom 63", "rm 6364", "rm 6364", "walk", "head"}, Tag: "corpus-weak"},
+		// comparators with magnitudes other than -1/0/1: the end test of RangeWithRange must use the sign only
+		core.Case{Lines: []string{"@ C02 cmp int diff " + dumpFlag(), "set 1 1 1", "set 5 2 0", "set 9 3 1073741824", "rrange 0 3 0", "rrange 1 6 0", "rrange 5 5 0", "rfrom 4 0", "get 9", "rm 5", "rrange 0 7 0"}, Tag: "corpus-magnitude"},
+		core.Case{Lines: []string{"@ C02 cmp int sgnhash " + dumpFlag(), "set 1 1 1", "set 2 2 0", "set 3 3 1073741824", "set 4 4 0", "rrange 0 2 0", "rrange 1 3 0", "rrange 2 4 0", "rrange 0 4 0", "rfrom 3 0", "getnode 2"}, Tag: "corpus-magnitude"},
+		core.Case{Lines: []string{"@ C02 cmp str bytesdiff " + dumpFlag(), "set 61 1 1", "set 7a 2 0", "set 6162 3 1073741824", "rrange - 62 0", "rrange 61 7a 0", "rrange 61 6163 0", "rfrom 6161 0", "keys"}, Tag: "corpus-magnitude"},
 		// node handles: traversal by Next(), a handle kept across inserts/removals of other keys
 		core.Case{Lines: []string{"@ C02 new int nat " + dumpFlag(), "walk", "set 5 1 536870912", "set 3 2 1073741824", "set 8 3 0", "walk", "walkfrom 5", "walkfrom 4", "hold 5", "rm 3", "set 6 4 1", "set 9 5 0", "held", "heldwalk", "heldset 42", "get 5", "rm 8", "heldwalk", "rm 5", "held", "heldwalk", "hold 1", "held"}, Tag: "corpus"},
 	)
